@@ -89,6 +89,7 @@ JUDGES = {
     "resume_eq": lambda w, o, prop: judges.judge_resume_eq(w, o, prop),
     "accounting": lambda w, o, prop: judges.judge_accounting(w, o, prop),
     "completion": lambda w, o, prop: (judges.judge_completion(w, o, prop), {}),
+    "idempotent": lambda w, o, prop: judges.judge_idempotent(w, o, prop),
 }
 
 
